@@ -6,7 +6,7 @@ use crate::{
     VecErr,
 };
 
-use crate::ast::{map_err_messages, Assignment};
+use crate::ast::{map_err, map_err_messages, Assignment};
 
 impl Parser {
     pub fn assignment_no_type(
@@ -26,10 +26,13 @@ impl Parser {
                 .user_data()
                 .has_name_been_mapped_in_function(ident.name())
         } else {
-            input
-                .user_data()
-                .get_dependency_flags_from_name(ident.name())
-                .map(|x| x.0.to_owned())
+            map_err(
+                Assignment::modify_target(input.user_data(), ident.name()),
+                input.as_span(),
+                &input.user_data().get_source_file_name(),
+                "this assignment contains the \"modify\" attribute, which is used to mutate a variable from a higher scope".to_owned(),
+            )
+            .to_err_vec()?
         };
 
         if is_const {
